@@ -4066,4 +4066,363 @@ theorem readerRun_frame' (r : ReaderKind) (hist : List (List Text × Bool)) :
   | nil => rfl
   | cons i is ih => simp only [readerRun, readerStep, List.map_cons, ih]
 
+/-! ## F. whole sparse ARFF files -/
+
+theorem sparseItems_written (names : List Text) (encs : List Enc) (row : List (Text × CellW)) (tail : List (Int × Text))
+    (T : List (Text × Cell))
+    (hrow : ∀ x ∈ row, ∀ e, encs[(digitsVal x.1).toNat]? = some e → cellWOk e (false, x.2) = true)
+    (ht : sparseItems names encs tail = .ok T) :
+    sparseItems names encs (row.map (fun x => (digitsVal x.1, x.2.text)) ++ tail) =
+      .ok (row.filterMap (sparseItemOut names encs) ++ T) := by
+  induction row with
+  | nil => simpa using ht
+  | cons x row ih =>
+    have ih' := ih (fun y hy => hrow y (by simp [hy]))
+    simp only [List.map_cons, List.cons_append, sparseItems, nthD, List.filterMap_cons, sparseItemOut]
+    cases hn : names[(digitsVal x.1).toNat]? with
+    | none => simp [ih']
+    | some nm =>
+      cases he : encs[(digitsVal x.1).toNat]? with
+      | none => simp [ih']
+      | some e =>
+        have := encodeCell_written e (false, x.2) (hrow x (by simp) e he)
+        simp only at this
+        simp [this, ih']
+
+/-- the predicate inside `notSparse` -/
+def nspP (encs : List Enc) (i : Nat) : Bool :=
+  match nthD encs i with
+  | some .numeric => false
+  | some .str => true
+  | some (.nominal lv) => lv.contains ZERO
+  | none => false
+
+theorem notSparse_eq (encs : List Enc) : notSparse encs = (List.range encs.length).filter (nspP encs) := rfl
+
+theorem contains_map_fst (raw : List (Int × Text)) (i : Int) :
+    (raw.map (·.1)).contains i = raw.any (fun p => decide (p.1 = i)) := by
+  induction raw with
+  | nil => rfl
+  | cons p r ih =>
+    rw [List.map_cons, List.contains_cons, List.any_cons, ih]
+    by_cases h : p.1 = i
+    · simp [h]
+    · have hb : (i == p.1) = false := by simpa using (fun e => h e.symm : ¬ i = p.1)
+      simp [h, hb]
+
+theorem sparseItems_filter (names : List Text) (encs : List Enc) (keep : Nat → Bool) (F : Nat → Option (Text × Cell))
+    (h1 : ∀ i, keep i = false → F i = none)
+    (h2 : ∀ i, keep i = true → ∀ rest R, sparseItems names encs rest = .ok R →
+      sparseItems names encs (((i : Int), ZERO) :: rest) = .ok ((F i).toList ++ R))
+    (l : List Nat) :
+    sparseItems names encs ((l.filter keep).map (fun (i : Nat) => ((i : Int), ZERO))) = .ok (l.filterMap F) := by
+  induction l with
+  | nil => rfl
+  | cons i l ih =>
+    cases hk : keep i with
+    | false => rw [List.filter_cons, hk, List.filterMap_cons, h1 i hk]; exact ih
+    | true =>
+      rw [List.filter_cons, hk]
+      simp only [if_true, List.map_cons]
+      rw [h2 i hk _ _ ih, List.filterMap_cons]
+      cases F i <;> rfl
+
+theorem sparseItems_defaults (names : List Text) (encs : List Enc) (raw : List (Int × Text)) (l : List Nat) :
+    sparseItems names encs ((((l.filter (nspP encs)).filter
+        (fun (i : Nat) => !(raw.any (fun p => p.1 = (i : Int))))).map (fun (i : Nat) => ((i : Int), ZERO))))
+      = .ok (l.filterMap (sparseDefaultAt names encs (raw.map (·.1)))) := by
+  rw [List.filter_filter]
+  apply sparseItems_filter
+  · intro i hk
+    unfold sparseDefaultAt
+    rw [contains_map_fst]
+    unfold nspP nthD at hk
+    cases hq : raw.any (fun p => decide (p.1 = (i : Int))) with
+    | true => simp
+    | false =>
+      rw [hq] at hk
+      cases he : encs[i]? with
+      | none => cases names[i]? <;> simp
+      | some e =>
+        rw [he] at hk
+        cases hn : names[i]? with
+        | none => simp
+        | some nm =>
+          cases e with
+          | numeric => simp [sparseDefaultCell]
+          | str => simp at hk
+          | nominal lv =>
+            have hm : ¬ ZERO ∈ lv := by simpa using hk
+            simp [sparseDefaultCell, hm]
+  · intro i hk rest R hR
+    unfold sparseDefaultAt
+    rw [contains_map_fst]
+    unfold nspP nthD at hk
+    cases hq : raw.any (fun p => decide (p.1 = (i : Int))) with
+    | true => rw [hq] at hk; simp at hk
+    | false =>
+      rw [hq] at hk
+      cases he : encs[i]? with
+      | none => rw [he] at hk; simp at hk
+      | some e =>
+        rw [he] at hk
+        simp only [sparseItems, nthD, Int.toNat_natCast, he]
+        cases hn : names[i]? with
+        | none => simp [hR]
+        | some nm =>
+          cases e with
+          | numeric => simp at hk
+          | str =>
+            have hz : encodeCell .str ZERO = .ok (.str ZERO) := by decide
+            simp [hz, hR, sparseDefaultCell]
+          | nominal lv =>
+            have hm : ZERO ∈ lv := by simpa using hk
+            have hz : encodeCell (.nominal lv) ZERO = .ok (.cat ZERO lv) := by simp [encodeCell, hm]
+            simp [hz, hR, sparseDefaultCell, hm]
+
+/-! ### the sparse missing flag -/
+
+theorem hasSub_qm (t : Text) (h : hasSub [32, QM, COMMA] t = true) : QM ∈ t := by
+  induction t with
+  | nil => simp [hasSub] at h
+  | cons c t ih =>
+    simp only [hasSub, Bool.or_eq_true] at h
+    rcases h with h | h
+    · unfold startsWith at h
+      have h' : (c :: t).take 3 = [32, QM, COMMA] := by simpa using h
+      have : QM ∈ (c :: t).take 3 := by rw [h']; simp
+      exact List.mem_of_mem_take this
+    · exact List.mem_cons_of_mem _ (ih h)
+
+theorem endsWith_qm (t : Text) (h : endsWith [32, QM, RBRACE] t = true) : QM ∈ t := by
+  unfold endsWith startsWith at h
+  have h' : t.reverse.take 3 = [RBRACE, QM, 32] := by simpa using h
+  have : QM ∈ t.reverse.take 3 := by rw [h']; simp
+  exact List.mem_reverse.mp (List.mem_of_mem_take this)
+
+theorem hasSub_sp_mid (a b : Text) : hasSub [32, QM, COMMA] (a ++ 32 :: QM :: COMMA :: b) = true := by
+  induction a with
+  | nil => simp [hasSub, startsWith]
+  | cons c a ih => simp only [List.cons_append, hasSub, ih, Bool.or_true]
+
+theorem endsWith_suffix (a p : Text) : endsWith p (a ++ p) = true := by
+  unfold endsWith startsWith
+  simp [List.reverse_append]
+
+theorem sparseWriteItems_mem (pad : Nat) (items : List (Text × Text)) (c : Nat) (h : c ∈ sparseWriteItems pad items) :
+    c = 32 ∨ c = COMMA ∨ ∃ p ∈ items, c ∈ p.1 ∨ c ∈ p.2 := by
+  induction items with
+  | nil => simp [sparseWriteItems] at h
+  | cons p r ih =>
+    obtain ⟨d, v⟩ := p
+    cases r with
+    | nil =>
+      simp only [sparseWriteItems, List.mem_append, List.mem_cons] at h
+      rcases h with h | h | h
+      · exact Or.inr (Or.inr ⟨(d, v), by simp, Or.inl h⟩)
+      · exact Or.inl h
+      · exact Or.inr (Or.inr ⟨(d, v), by simp, Or.inr h⟩)
+    | cons y r' =>
+      obtain ⟨y1, y2⟩ := y
+      have e : sparseWriteItems pad ((d, v) :: (y1, y2) :: r') =
+          d ++ 32 :: v ++ COMMA :: (List.replicate pad 32 ++ sparseWriteItems pad ((y1, y2) :: r')) := by
+        simp [sparseWriteItems]
+      rw [e] at h
+      simp only [List.mem_append, List.mem_cons, List.mem_replicate] at h
+      rcases h with (h | h | h) | h | h | h
+      · exact Or.inr (Or.inr ⟨(d, v), by simp, Or.inl h⟩)
+      · exact Or.inl h
+      · exact Or.inr (Or.inr ⟨(d, v), by simp, Or.inr h⟩)
+      · exact Or.inr (Or.inl h)
+      · exact Or.inl h.2
+      · rcases ih h with h | h | ⟨p, hp, hc⟩
+        · exact Or.inl h
+        · exact Or.inr (Or.inl h)
+        · exact Or.inr (Or.inr ⟨p, by simp at hp ⊢; right; exact hp, hc⟩)
+
+theorem sparse_missing_split (pad : Nat) (items : List (Text × Text)) (d : Text) (h : (d, [QM]) ∈ items) :
+    ∃ P S, sparseWriteItems pad items = P ++ 32 :: QM :: S ∧ (S = [] ∨ ∃ S', S = COMMA :: S') := by
+  induction items with
+  | nil => simp at h
+  | cons x xs ih =>
+    obtain ⟨d1, v1⟩ := x
+    cases xs with
+    | nil =>
+      simp only [List.mem_singleton, Prod.mk.injEq] at h
+      obtain ⟨rfl, rfl⟩ := h
+      exact ⟨d, [], by simp [sparseWriteItems], Or.inl rfl⟩
+    | cons y ys =>
+      obtain ⟨y1, y2⟩ := y
+      have e : sparseWriteItems pad ((d1, v1) :: (y1, y2) :: ys) =
+          d1 ++ 32 :: v1 ++ COMMA :: (List.replicate pad 32 ++ sparseWriteItems pad ((y1, y2) :: ys)) := by
+        simp [sparseWriteItems]
+      by_cases hx : (d1, v1) = (d, [QM])
+      · cases hx
+        exact ⟨d, COMMA :: (List.replicate pad 32 ++ sparseWriteItems pad ((y1, y2) :: ys)), by rw [e]; simp, Or.inr ⟨_, rfl⟩⟩
+      · have hm : (d, [QM]) ∈ (y1, y2) :: ys := by
+          rcases List.mem_cons.mp h with h | h
+          · exact absurd h.symm hx
+          · exact h
+        obtain ⟨P1, S1, he, hS⟩ := ih hm
+        exact ⟨d1 ++ 32 :: v1 ++ COMMA :: (List.replicate pad 32 ++ P1), S1, by rw [e, he]; simp, hS⟩
+
+theorem sparseRowWOk_parts (n : Nat) (encs : List Enc) (row : List (Text × CellW)) (h : sparseRowWOk n encs row = true) :
+    sparseRowOk n (row.map sparseTok) = true ∧
+    ∀ x ∈ row, ∃ e, encs[(digitsVal x.1).toNat]? = some e ∧ cellWOk e (false, x.2) = true := by
+  unfold sparseRowWOk at h
+  simp only [Bool.and_eq_true] at h
+  refine ⟨h.1, fun x hx => ?_⟩
+  have := List.all_eq_true.mp h.2 x hx
+  cases he : encs[(digitsVal x.1).toNat]? with
+  | none => rw [he] at this; cases this
+  | some e => rw [he] at this; exact ⟨e, rfl, this⟩
+
+theorem sparseMissing_written (pad n : Nat) (encs : List Enc) (row : List (Text × CellW)) (h : sparseRowWOk n encs row = true) :
+    sparseMissing (sparseRowLine pad row) = row.any (·.2.isMissing) := by
+  obtain ⟨hok, hcells⟩ := sparseRowWOk_parts n encs row h
+  obtain ⟨hall, _⟩ := sparseRowOk_parts n _ hok
+  cases hany : row.any (·.2.isMissing) with
+  | true =>
+    obtain ⟨x, hx, hxm⟩ := List.any_eq_true.mp hany
+    have hxt : sparseTok x = (x.1, [QM]) := by
+      obtain ⟨d, c⟩ := x
+      cases c <;> simp [CellW.isMissing] at hxm
+      rfl
+    have hmem : (x.1, [QM]) ∈ row.map sparseTok := by rw [← hxt]; exact List.mem_map_of_mem hx
+    obtain ⟨P, S, he, hS⟩ := sparse_missing_split pad _ x.1 hmem
+    unfold sparseMissing sparseRowLine sparseWriteRow
+    rw [he]
+    rcases hS with hS | ⟨S', hS⟩
+    · subst hS
+      have : LBRACE :: (P ++ [32, QM] ++ [RBRACE]) = (LBRACE :: P) ++ [32, QM, RBRACE] := by simp
+      rw [this, endsWith_suffix]; simp
+    · subst hS
+      have : LBRACE :: (P ++ 32 :: QM :: COMMA :: S' ++ [RBRACE]) = (LBRACE :: P) ++ 32 :: QM :: COMMA :: (S' ++ [RBRACE]) := by simp
+      rw [this, hasSub_sp_mid]; simp
+  | false =>
+    have hno : ¬ QM ∈ sparseRowLine pad row := by
+      intro hq
+      unfold sparseRowLine sparseWriteRow at hq
+      simp only [List.mem_cons, List.mem_append] at hq
+      rcases hq with hq | hq | hq
+      · revert hq; decide
+      · rcases sparseWriteItems_mem pad _ QM hq with h1 | h1 | ⟨p, hp, h1⟩
+        · revert h1; decide
+        · revert h1; decide
+        · simp only [List.mem_map] at hp
+          obtain ⟨x, hx, rfl⟩ := hp
+          rcases h1 with h1 | h1
+          · have hd := (hall (sparseTok x) (List.mem_map_of_mem hx)).2.1
+            have := List.all_eq_true.mp hd QM h1
+            revert this; decide
+          · obtain ⟨e, _, hce⟩ := hcells x hx
+            have hm : x.2.isMissing = false := by
+              have := List.any_eq_false.mp hany x hx
+              simpa using this
+            have hf := (cellWOk_facts e (false, x.2) hce).2 hm
+            have hc2 : x.2.text.contains QM = true := by simpa [sparseTok] using h1
+            simp only at hf
+            rw [hf] at hc2; cases hc2
+      · revert hq; decide
+    unfold sparseMissing
+    have h1 : hasSub [32, QM, COMMA] (sparseRowLine pad row) = false := by
+      cases hh : hasSub [32, QM, COMMA] (sparseRowLine pad row) with
+      | false => rfl
+      | true => exact absurd (hasSub_qm _ hh) hno
+    have h2 : endsWith [32, QM, RBRACE] (sparseRowLine pad row) = false := by
+      cases hh : endsWith [32, QM, RBRACE] (sparseRowLine pad row) with
+      | false => rfl
+      | true => exact absurd (endsWith_qm _ hh) hno
+    rw [h1, h2]; rfl
+
+/-! ### rows and the whole file -/
+
+theorem sparseRowLine_shape (pad : Nat) (row : List (Text × CellW)) :
+    (sparseRowLine pad row).head? = some LBRACE ∧ (sparseRowLine pad row).getLast? = some RBRACE := by
+  unfold sparseRowLine sparseWriteRow
+  refine ⟨rfl, ?_⟩
+  rw [← List.cons_append]
+  exact getLast?_append_some _ _ _ rfl
+
+theorem sparseRows_written (names : List Text) (encs : List Enc) (n : Nat) (rows : List (Nat × List (Text × CellW)))
+    (hrows : ∀ r ∈ rows, sparseRowWOk n encs r.2 = true) :
+    sparseRows names encs n (rows.map (fun r => sparseRowLine r.1 r.2)) =
+      .ok (rows.map fun r => ⟨sparseRowOut names encs r.2, r.2.any (·.2.isMissing)⟩) := by
+  induction rows with
+  | nil => rfl
+  | cons r rows ih =>
+    have hr := hrows r (by simp)
+    obtain ⟨hok, hcells⟩ := sparseRowWOk_parts n encs r.2 hr
+    have hpct : ¬ (sparseRowLine r.1 r.2).head? = some PCT := by
+      rw [(sparseRowLine_shape r.1 r.2).1]; decide
+    have hline : arffSparseLine n (sparseRowLine r.1 r.2) = .ok (r.2.map (fun x => (digitsVal x.1, x.2.text))) := by
+      unfold sparseRowLine
+      rw [arffSparseLine_written n r.1 _ hok, List.map_map]
+      rfl
+    have hdef := sparseItems_defaults names encs (r.2.map (fun x => (digitsVal x.1, x.2.text))) (List.range encs.length)
+    have hfst : (r.2.map (fun x => (digitsVal x.1, x.2.text))).map (·.1) = r.2.map (fun x => digitsVal x.1) := by
+      simp [List.map_map, Function.comp_def]
+    rw [hfst] at hdef
+    have hitems := sparseItems_written names encs r.2 _ _ (fun x hx e he => by
+      obtain ⟨e', he', hc⟩ := hcells x hx
+      rw [he] at he'; cases he'; exact hc) hdef
+    simp only [List.map_cons, sparseRows, hpct, if_false, hline, notSparse_eq]
+    rw [hitems, ih (fun x hx => hrows x (by simp [hx])), sparseMissing_written r.1 n encs r.2 hr]
+    rfl
+
+theorem arff_sparse_table' (q : Nat) (hq : q = SQ ∨ q = DQ) (also : Nat → Bool) (attrs : List AttrW) (dkw : Text)
+    (rows : List (Nat × List (Text × CellW)))
+    (hattrs : attrs ≠ []) (hok : ∀ a ∈ attrs, a.ok false = true) (hnd : (attrs.map (·.name.2)).Nodup)
+    (hdkw : lowerAscii dkw = kwData) (hne : rows ≠ [])
+    (hrows : ∀ r ∈ rows, sparseRowWOk attrs.length (attrs.map (·.typ.enc false)) r.2 = true) :
+    arffReadN (attrs.map (·.line q also) ++ dkw :: rows.map (fun r => sparseRowLine r.1 r.2)) =
+      .ok (.sparse (attrs.map (·.name.2))
+        (rows.map fun r => ⟨sparseRowOut (attrs.map (·.name.2)) (attrs.map (·.typ.enc false)) r.2, r.2.any (·.2.isMissing)⟩)) := by
+  have hp : ∀ l ∈ attrs.map (·.line q also), (fun l => decide (lowerAscii l ≠ kwData)) l = true := by
+    intro l hl
+    simp only [List.mem_map] at hl
+    obtain ⟨a, ha, rfl⟩ := hl
+    simpa using (attrW_line_facts false q also a (hok a ha)).2
+  have hf : (attrs.map (·.line q also)).filter (fun l => decide (lowerAscii (l.take 5) = kwAttr)) = attrs.map (·.line q also) := by
+    rw [List.filter_eq_self]
+    intro l hl
+    simp only [List.mem_map] at hl
+    obtain ⟨a, ha, rfl⟩ := hl
+    simpa using (attrW_line_facts false q also a (hok a ha)).1
+  rw [arffReadN_parts, takeWhile_all_append _ _ _ hp, dropWhile_all_append _ _ _ hp]
+  simp only [List.takeWhile, List.dropWhile, hdkw, ne_eq, not_true_eq_false, decide_false, List.append_nil, List.drop_succ_cons, List.drop_zero, hf]
+  cases hrs : rows with
+  | nil => exact absurd hrs hne
+  | cons r0 rest =>
+    rw [← hrs]
+    have hdata : rows.map (fun r => sparseRowLine r.1 r.2) = sparseRowLine r0.1 r0.2 :: rest.map (fun r => sparseRowLine r.1 r.2) := by
+      rw [hrs]; rfl
+    have hshape := sparseRowLine_shape r0.1 r0.2
+    unfold arffReadParts
+    have hdw : (rows.map (fun r => sparseRowLine r.1 r.2)).dropWhile (fun l => decide (l.head? = some PCT)) =
+        rows.map (fun r => sparseRowLine r.1 r.2) := by
+      rw [hdata]
+      have hd : decide (LBRACE = PCT) = false := by decide
+      simp [List.dropWhile, hshape.1, hd]
+    rw [hdw, hdata]
+    simp only
+    have hsparse : (!decide ((sparseRowLine r0.1 r0.2).head? = some LBRACE) || !decide ((sparseRowLine r0.1 r0.2).getLast? = some RBRACE)) = false := by
+      rw [hshape.1, hshape.2]; simp
+    rw [hsparse, arffAttrs_written false q hq also attrs [] hok hnd (fun _ _ => by simp)]
+    cases hat : attrs with
+    | nil => exact absurd hat hattrs
+    | cons a0 as =>
+      rw [← hat]
+      have hmapne : attrs.map (fun a => (a.name.2, a.typ.enc false)) = (a0.name.2, a0.typ.enc false) :: as.map (fun a => (a.name.2, a.typ.enc false)) := by
+        rw [hat]; rfl
+      rw [hmapne]
+      simp only [Bool.false_eq_true, if_false]
+      rw [← hmapne, ← hdata]
+      simp only [List.map_map, List.length_map]
+      have hencs : (List.map (Prod.snd ∘ fun a => (a.name.2, a.typ.enc false)) attrs) = attrs.map (·.typ.enc false) := by
+        simp [Function.comp_def]
+      have hnames : (List.map (Prod.fst ∘ fun a => (a.name.2, a.typ.enc false)) attrs) = attrs.map (·.name.2) := by
+        simp [Function.comp_def]
+      rw [hencs, hnames, sparseRows_written _ _ _ rows hrows]
+
 end Coba.C12
